@@ -69,6 +69,13 @@ Theorem C16_exception_rows_reject_unchanged :
 Proof. exact exception_rows_reject_unchanged. Qed.
 Print Assumptions C16_exception_rows_reject_unchanged.
 
+(* privileged handlers are reached only through baseapp's MsgServiceRouter, whose wrapper runs ValidateBasic
+   first (pinned source): the only by-name calls in fx-core are the crosschain router's forwards *)
+Theorem C16_reached_only_through_router :
+  direct_callers_ok gen_direct_callers = true /\ gen_router_validates_basic = true.
+Proof. exact reached_only_through_router. Qed.
+Print Assumptions C16_reached_only_through_router.
+
 Theorem C16_fold_guard_lower_gov : forall gov a,
   lower_ascii gov -> guard_pass CmpEqualFold gov a = true -> fold a = gov.
 Proof. exact guard_fold_lower_gov. Qed.
